@@ -60,6 +60,10 @@ func (w *World) CheckAccess(focus waddrmgr.KeyScope, probes *ProbeCT, codes map[
 		}
 	}
 	for _, h := range w.Held {
+		if ta, ok := h.MA.(waddrmgr.ManagedTaprootScriptAddress); ok {
+			t, err := ta.TaprootScript()
+			deny("TaprootScript(held:"+h.How+")", err, t != nil)
+		}
 		if pk, ok := h.MA.(waddrmgr.ManagedPubKeyAddress); ok {
 			k, err := pk.PrivKey()
 			deny("PrivKey(held:"+h.How+")", err, k != nil)
@@ -129,6 +133,15 @@ func (w *World) CheckAccess(focus waddrmgr.KeyScope, probes *ProbeCT, codes map[
 				sa := ma.(waddrmgr.ManagedScriptAddress)
 				sc, err := sa.Script()
 				deny("Script("+im.Kind+")", err, len(sc) > 0)
+			case "tapscript":
+				if ta, ok := ma.(waddrmgr.ManagedTaprootScriptAddress); ok {
+					t, err := ta.TaprootScript()
+					deny("TaprootScript", err, t != nil)
+				}
+				if sa, ok := ma.(waddrmgr.ManagedScriptAddress); ok {
+					sc, err := sa.Script()
+					deny("Script(tapscript)", err, len(sc) > 0)
+				}
 			}
 		}
 		return nil
